@@ -10,7 +10,7 @@ TECHNIQUE = "static analysis over type-checked MIR: Result-discipline inventory 
 LEVEL_TEXT = """Static, all-paths decision of the error/recovery clauses: (E1) every call in the cone of RollingFileAppender::append (policy, rollers, helpers) whose callee returns a Result has its value propagated, matched or passed on — enumerated exceptions: best-effort diagnostics written to stderr; (E2) no un-discharged panic site on the rotation path (append, get_writer, LogFile::roll, CompoundPolicy::process, every Roll implementor and helpers; cut at dyn Encode and dyn Trigger); (E3) the writer slot is None after roll() whether or not the roller succeeds and the next append reopens the active path, appending unless it truncates — never positioned at offset 0 of content it keeps (C05.R3/R5 premises); (E4) no OpenOptions::truncate whose argument can be true is reachable from Append::append — the argument's truth table is evaluated per calling context with the call site's constant arguments bound; (E5) archives are shifted oldest-first, so the only chunk ever overwritten is the one due for eviction, and a move that fails leaves its source where it was (rename first; the copy fallback removes the source only on the copy's success edge; C07.R5 re-evaluated). On-disk states at every crash point and after every fault are not decided (they need the file system). (E9) the size estimate of a reopened file is its size (C06.Z3 re-evaluated). (E10) no function reachable from RollingFileAppender::append calls the log facade (log::__private_api / log::logger): a record emitted under the writer lock re-enters the same appender and the append never returns; the matcher is shown to work on the one facade call of the crate (init_from_raw_config)."""
 LEVEL_NOTE = "Trusted: rustc MIR/callee resolution; std::fs semantics; the external may-panic contract table. Decides error propagation, panic freedom, reopen mode and shift order on all paths; not crash images."
 EXPLANATION = """Decided: E1 error discipline, E2 no panic on the rotation path, E3 recoverability (slot closed, reopened iff closed), E4 reopening never truncates, E5 crash ordering (oldest first). Undecided: on-disk state at every crash point / after every fault sequence."""
-DECIDED = ["E1", "E2", "E3", "E4", "E5", "E1b no Ok return is reachable from the Err edge of a file-system call on the rotation path (only rename/NotFound is tolerated)", "E1c nor from the Err edge of a step the crate implements itself (policy, trigger, roller)", "E5c/E7 final step last, staging name fresh (C07.R3/R12 re-evaluated)", "E8 a failed roll does not leave the busy flag lowered (C07.R14 re-evaluated)", "E10 the rotation path emits no record of its own (no re-entry under the writer lock)"]
+DECIDED = ["E1", "E2", "E3", "E4", "E5", "E1b no Ok return is reachable from the Err edge of a file-system call on the rotation path (only rename/NotFound is tolerated)", "E1c nor from the Err edge of a step the crate implements itself (policy, trigger, roller)", "E5c/E7 final step last, staging name fresh (C07.R3/R12 re-evaluated)", "E8 a failed roll does not leave the busy flag lowered (C07.R14 re-evaluated)", "E10 the rotation path emits no record of its own (no re-entry under the writer lock)", "E11 the roller runs whenever the trigger asks, guarded by nothing else (C05.R4 re-evaluated)"]
 UNDECIDED = ["on-disk states at every crash point and after every fault"]
 TRUSTED = ["rustc nightly MIR + Instance::try_resolve", "std::fs semantics", "external may-panic contract table"]
 
@@ -274,6 +274,8 @@ def run_cfg(ctx, p, cfg):
 
     rule_reopen_keeps_data(ctx, p, cfg, "E4")
     rule_no_reentry(ctx, p, cfg, "E10")
+    if "compound_policy" in feats:
+        rolling.rule_policy_order(ctx, p, cfg, "E11")   # "resumes rotating": the roll the trigger asks for is guarded by nothing but the trigger's answer - no flag a failed roll could leave set (C05.R4 re-evaluated)
 
     if "fixed_window_roller" in feats:
         c07.rule_shift_order(ctx, p, cfg, "E5")
